@@ -509,7 +509,9 @@ def _gen_node(rng, pl, flavour, budget, block=B_REAL):
         # and the composed spelling, glob metacharacters in directory and file names, mixed-case siblings) on top of a few files
         flat = {(n,): None for n in names(FILE_NAMES, rng.randrange(0, 3))}
         if rng.random() < 0.4:
-            flat[(rng.choice(DIR_NAMES), rng.choice(FILE_NAMES))] = None
+            comps = (rng.choice(DIR_NAMES), rng.choice(FILE_NAMES))
+            if trees._free(flat, comps):         # the pools overlap: a directory may not take the name of a file
+                flat[comps] = None
         groups = list(trees.NAME_GROUPS) if rng.random() < 0.5 else \
             ([g for g in trees.NAME_GROUPS if rng.random() < 0.6] or [rng.choice(trees.NAME_GROUPS)])
         trees.add_aimed_names(rng, flat, pl, groups, budget=0)        # only the names are taken: the sizes are drawn below
